@@ -8,3 +8,19 @@ import SuxModel.Props.C15
 #print axioms Sux.Serde.answers_identical
 #print axioms Sux.Serde.bitvec_answers
 #print axioms Sux.Serde.rank9_answers
+#print axioms Sux.Serde.Bridge.reload
+#print axioms Sux.Serde.Bridge.answers
+#print axioms Sux.Serde.Bridge.rejected
+#print axioms Sux.Serde.bfv_answers
+#print axioms Sux.Serde.rankSmall_answers
+#print axioms Sux.Serde.ef_answers
+#print axioms Sux.Serde.ef_built_answers
+#print axioms Sux.Serde.adapt_answers
+#print axioms Sux.Serde.adaptConst_answers
+#print axioms Sux.Serde.select9_answers
+#print axioms Sux.Serde.small_answers
+#print axioms Sux.Serde.rcl_answers
+#print axioms Sux.Serde.vfunc_answers
+#print axioms Sux.Serde.vfilter_answers
+#print axioms Sux.Serde.rankSmall_built_answers
+#print axioms Sux.Serde.bridged_misaligned_rejected
